@@ -415,6 +415,9 @@ class Interp:
             return self.decide(("nonempty", v.path))
         if isinstance(v, dict):
             return bool(v)
+        if isinstance(v, Opaque):
+            # a test the rewriter makes on something this analysis does not model (any(...) over ast.walk, say): both outcomes are explored
+            return self.decide(("sym", f"{v!r}@{getattr(at, 'lineno', '?')}"))
         raise Unsupported(f"truth value of {v!r} at line {getattr(at, 'lineno', '?')}")
 
     def refine_present(self, v):
@@ -877,6 +880,8 @@ class Interp:
         if cls == "Str":
             v = kwargs.get("s", args[0] if args else None)
             return Node("Constant", {"value": v}, e.lineno)
+        if cls in ("walk", "iter_child_nodes", "iter_fields", "dump", "unparse", "get_docstring"):
+            return Opaque(f"ast.{cls}(...)")        # reads a tree, builds nothing
         if cls not in ASDL:
             raise Unsupported(f"ast.{cls} is not a node class of this Python (line {e.lineno})")
         fields = {}
